@@ -100,8 +100,14 @@ def check_eq_sym(prog: Program, res: Result) -> None:
         fi = eq_of(prog, K)
         s, o = fi.params()[:2]
         call = search_call(fi)
-        kw = {k.arg: k.value for k in call.keywords}
-        args = [norm(a) for a in call.args]
+        bound = prog.bound_args(call)
+        if bound is not None:
+            sig = prog.signature_of("vf2pp_all_isomorphisms")
+            kw = dict(bound)
+            args = [norm(bound[p_]) for p_ in sig[:2] if p_ in bound]
+        else:
+            kw = {k.arg: k.value for k in call.keywords}
+            args = [norm(a) for a in call.args]
         inst = f"{SHORT[K]}.__eq__ search call"
         problems = []
         if args[:2] != [s, o]:
